@@ -482,6 +482,35 @@ def comprehension(it, n, kind):
     if g.is_async:
         raise OutOfSubset("async comprehension")
     src = it.ev(g.iter)
+    if kind == "set":
+        # {elt for x in <set | unordered dict view> if cond}: order is irrelevant for a set result
+        d = None
+        if isinstance(src, tuple) and src[0] in ("keys", "values", "items") and not src[1].sort.ordered:
+            d, view = src[1], src[0]
+        elif isinstance(src, V) and isinstance(src.sort, S.TDict) and not src.sort.ordered:
+            d, view = src, "keys"
+        elif isinstance(src, V) and isinstance(src.sort, S.TSet):
+            d, view = src, "set"
+        if d is not None:
+            saved_spec = it.spec
+            it.spec = True
+            try:
+                ksort = d.sort.key if view != "set" else d.sort.elem
+                kx = ksort.fresh("sck")
+                guard = d.sort.has(d, kx) if view != "set" else d.sort.mem(d, kx)
+                if view in ("keys", "set"):
+                    item = kx
+                elif view == "values":
+                    item = d.sort.get(d, kx)
+                else:
+                    item = S.TTuple([d.sort.key, d.sort.val]).make([kx, d.sort.get(d, kx)])
+                ev_k = _with_bound(it, g.target, item, lambda: it.ev(n.elt))
+                cnd = _with_bound(it, g.target, item, lambda: z3.And(*[it.truthy(it.ev(c)) for c in g.ifs])) if g.ifs else z3.BoolVal(True)
+                e = z3.Const(S.fresh_name("sce"), ev_k.sort.leaves()[0][1])
+                body = z3.Exists(list(kx.terms), z3.And(guard, cnd, ev_k.t == e))
+                return V(S.TSet(ev_k.sort), (z3.Lambda([e], body),))
+            finally:
+                it.spec = saved_spec
     lst = as_list(it, src) if not (isinstance(src, V) and isinstance(src.sort, (S.TSet,))) else None
     if lst is None:
         raise OutOfSubset("comprehension over a set")
@@ -821,13 +850,17 @@ def call_builtin(it, name, args, kwargs, node):
                 return mk_int(a.sort.keys_list(a).terms[0])
             if isinstance(a.sort, (S.TSet, S.TDict)):
                 arr = a.terms[0]
-                card = it.eng.ufunc(f"card_{arr.sort().domain()}", arr.sort(), z3.IntSort())
-                c = card(arr)
-                it.st.assume(c >= 0)
-                ksort = arr.sort().domain()
-                x = z3.Const(S.fresh_name("cx"), ksort)
-                it.st.assume((c == 0) == z3.Not(z3.Exists([x], z3.Select(arr, x))))
-                return mk_int(c)
+                name = f"card_{arr.sort().domain()}"
+                card = it.eng.ufunc(name, arr.sort(), z3.IntSort())
+                if name not in it.eng.extra_axioms:
+                    # cardinality is abstract: only non-negativity and "zero iff empty" are axiomatised (global, so that it
+                    # also holds under binders)
+                    q = z3.Const("card_arr_" + name, arr.sort())
+                    x = z3.Const("card_x_" + name, arr.sort().domain())
+                    it.eng.extra_axioms[name] = z3.ForAll(
+                        [q], z3.And(card(q) >= 0, (card(q) == 0) == z3.Not(z3.Exists([x], z3.Select(q, x)))), patterns=[card(q)]
+                    )
+                return mk_int(card(arr))
         raise OutOfSubset(f"len of {a!r}")
     if name == "int":
         (a,) = args
@@ -913,6 +946,13 @@ def call_builtin(it, name, args, kwargs, node):
         if isinstance(a, ExcObj):
             return ExcClassObj(a.cls)
         raise OutOfSubset("type()")
+    if name == "round":
+        # round(x[, n]) is not modelled arithmetically (A-REAL): an uninterpreted function of its arguments
+        x = it.coerce(args[0], TReal)
+        if len(args) == 1:
+            return mk_int(it.eng.ufunc("round_to_int", z3.RealSort(), z3.IntSort())(x.t))
+        n = it.coerce(args[1], TInt)
+        return V(TReal, (it.eng.ufunc("round_ndigits", z3.RealSort(), z3.IntSort(), z3.RealSort())(x.t, n.t),))
     if name == "sum":
         raise OutOfSubset("sum()")
     if name == "print":
